@@ -64,6 +64,7 @@ Section Iter.
 
 Variable e : env.
 Hypothesis Hie : iter_env e.
+Hypothesis Hfu : fused e.
 Variable progs : tid -> list op.
 Hypothesis Hp : wf_progs progs.
 Variable sched : list tid.
@@ -88,10 +89,15 @@ Proof. destruct iter_inv as [A _]. apply (mutex e L c A). Qed.
 
 Lemma iev_part (P : tid -> res -> list drops -> list event -> bool) :
   (forall t r d tl, ev6 e t r d tl = true -> P t r d tl = true) -> all_rets P (c_trace c) = true.
-Proof. intros H. eapply all_rets_impl; [exact H|]. destruct iter_inv as [_ B]. apply (b_evs e c B). Qed.
+Proof. intros H. eapply all_rets_impl; [exact H|]. destruct iter_inv as [_ B]. apply (b_evs e c B Hfu). Qed.
+
+(** the per-event checks that hold for every wrapped iterator, fused or not *)
+Lemma iev_part5 (P : tid -> res -> list drops -> list event -> bool) :
+  (forall t r d tl, ev5 e t r d tl = true -> P t r d tl = true) -> all_rets P (c_trace c) = true.
+Proof. intros H. eapply all_rets_impl; [exact H|]. destruct iter_inv as [_ B]. apply (b_evs5 e c B). Qed.
 
 Ltac ev_split H :=
-  unfold ev6 in H; repeat (apply andb_true_iff in H; let H' := fresh in destruct H as [H H']).
+  unfold ev6, ev5 in H; repeat (apply andb_true_iff in H; let H' := fresh in destruct H as [H H']).
 
 Theorem iter_C02 : chk_C02 e (c_trace c) = true.
 Proof. apply iev_part. intros t r d tl H. ev_split H. assumption. Qed.
@@ -99,16 +105,17 @@ Theorem iter_C03 : chk_C03 e (c_trace c) = true.
 Proof. apply iev_part. intros t r d tl H. ev_split H. assumption. Qed.
 Theorem iter_C04_order : chk_C04_order e (c_trace c) = true.
 Proof. apply iev_part. intros t r d tl H. ev_split H. assumption. Qed.
+(** C05, the stopping clause of C06 and the shape clause of C12: every wrapped iterator, fused or not *)
 Theorem iter_C05 : chk_C05 e (c_trace c) = true.
-Proof. apply iev_part. intros t r d tl H. ev_split H. assumption. Qed.
+Proof. apply iev_part5. intros t r d tl H. ev_split H. assumption. Qed.
 Theorem iter_C06_stop : chk_C06_stop e (c_trace c) = true.
-Proof. apply iev_part. intros t r d tl H. ev_split H. assumption. Qed.
+Proof. apply iev_part5. intros t r d tl H. ev_split H. assumption. Qed.
 Theorem iter_C12_shape : chk_C12_shape (c_trace c) = true.
-Proof. apply iev_part. intros t r d tl H. ev_split H. assumption. Qed.
+Proof. apply iev_part5. intros t r d tl H. ev_split H. assumption. Qed.
 
 Theorem iter_nodup : chk_C01_nodup e (c_trace c) = true.
 Proof.
-  destruct iter_inv as [A _]. unfold chk_C01_nodup. pose proof (tl_disj _ _ _ (a_til e L c A)) as H.
+  destruct iter_inv as [A _]. unfold chk_C01_nodup. pose proof (tl_disj _ _ _ (a_til e L c A Hfu)) as H.
   rewrite pairwise_disj_app in H.
   apply andb_true_iff in H. destruct H as [H _]. apply andb_true_iff in H. destruct H as [H _]. exact H.
 Qed.
@@ -119,11 +126,11 @@ Proof.
   destruct (end_reported (c_trace c)) eqn:Ee; [|reflexivity].
   destruct ((n_pending (c_trace c) =? 0)%Z) eqn:Eq; [|reflexivity]. cbn [andb].
   apply Z.eqb_eq in Eq.
-  pose proof (a_til e L c A) as T. rewrite (iter_quiescent_helds e L c A Eq), app_nil_r in T.
+  pose proof (a_til e L c A Hfu) as T. rewrite (iter_quiescent_helds e L c A Eq), app_nil_r in T.
   unfold clean in Hcl. apply negb_true_iff in Hcl. apply orb_false_iff in Hcl. destruct Hcl as [Hs Hpn].
   assert (Hcur : s_cur (c_sh c) = e_len e).
   { destruct (b_end e c B Ee) as [Hf|Hc]; [|exact Hc].
-    destruct (b_f e c B Hf) as [H|[H|H]]; [exact H|congruence|congruence]. }
+    destruct (b_f e c B Hfu Hf) as [H|[H|H]]; [exact H|congruence|congruence]. }
   rewrite Hcur in T. unfold tiles.
   assert (Hnp : npanic (c_trace c) = true) by (unfold npanic; rewrite Hpn; reflexivity).
   rewrite (tl_disj _ _ _ T), (tl_within _ _ _ T), (tl_total _ _ _ T Hnp), N.eqb_refl. reflexivity.
@@ -156,13 +163,14 @@ Section IterPrefix.
 
 Variable e : env.
 Hypothesis Hie : iter_env e.
+Hypothesis Hfu : fused e.
 Variable progs : tid -> list op.
 Hypothesis Hp : wf_progs progs.
 
 Lemma iter_quiescent_gap L c0 : NoDup L -> IInvA e L c0 -> n_pending (c_trace c0) = 0%Z -> has_panic (c_trace c0) = false ->
   iv_total (cov e (c_trace c0)) = iv_maxhi (cov e (c_trace c0)).
 Proof.
-  intros ND A Hq Hnp. pose proof (a_til e L c0 A) as T.
+  intros ND A Hq Hnp. pose proof (a_til e L c0 A Hfu) as T.
   rewrite (iter_quiescent_helds e L c0 A Hq), app_nil_r in T.
   assert (Hn : npanic (c_trace c0) = true) by (unfold npanic; rewrite Hnp; reflexivity).
   rewrite (tl_total _ _ _ T Hn), (tl_maxhi _ _ _ T Hn). reflexivity.
@@ -209,7 +217,7 @@ Theorem iter_C04 sched :
   nowrap (c_labels (exec e (init progs) sched)) ->
   check_prop 4 e (c_trace (exec e (init progs) sched)) (c_labels (exec e (init progs) sched)) = true.
 Proof.
-  intros Hw. cbn [check_prop]. rewrite (iter_nodup e Hie progs Hp sched Hw), (iter_C04_order e Hie progs Hp sched Hw). cbn [andb].
+  intros Hw. cbn [check_prop]. rewrite (iter_nodup e Hie Hfu progs Hp sched Hw), (iter_C04_order e Hie Hfu progs Hp sched Hw). cbn [andb].
   destruct (has_panic (c_trace (exec e (init progs) sched))) eqn:Hnp; [reflexivity|].
   apply iter_prefix; assumption.
 Qed.
